@@ -75,4 +75,5 @@ c2be3c9 C07
 2c9ca16 C10
 51cc715 C09
 e57b5cb C14
+1f17f67 C06
 LIST
